@@ -2,6 +2,7 @@
 import math
 
 from ..runner import Oracle, V
+from .energy import step_cost_upper_bound, stored
 from ..adversary import act, TRAVEL
 from nrel.hive.reporting.report_type import ReportType as RT
 
@@ -176,6 +177,14 @@ class C06(Oracle):
                     progressed = (v1.position.geoid != u.position.geoid or len(r1) < len(ru) or route_time_s(r1) < route_time_s(ru))
                     if not progressed:
                         out.append(V("C06", "no_progress", k, f"vehicle {vid} ({au}) with {len(ru)} links left made no progress in a {dt}-s step"))
+                if len(ru) > 0 and a1 == "OutOfService" and v1.position.geoid == u.position.geoid:
+                    # taken out of service by its own update, without moving: only a vehicle that lacks the energy for the step's
+                    # leg may stop like that ("a travelling vehicle that has energy makes progress along its route every step")
+                    bound = step_cost_upper_bound(u, ctx.env, dt)
+                    ctx.run.probes["travelling_vehicle_stopped_for_lack_of_energy"] += 1
+                    if bound is not None and stored(u) > 1.5 * bound + 1e-9:
+                        out.append(V("C06", "stopped_with_energy", k,
+                                     f"vehicle {vid} ({au}) holding {stored(u)!r} was taken out of service without moving; one step along its route costs at most {bound!r}"))
                 if len(ru) == 0 and same:
                     # it had already arrived when the step's updates began and is still in the same activity
                     if not (au == "DispatchStation" and not self.strict_plugs):
